@@ -38,7 +38,14 @@ type c16Case struct {
 	RedirInBody bool `json:"redir_in_body,omitempty"`
 }
 
-var c16PreludeKinds = []string{"rec-known", "rec-known", "rec-unknown", "login-ok", "login-page", "adv1", "adv45", "adv90", "newsess"}
+var c16PreludeKinds = []string{"rec-known", "rec-known", "rec-unknown", "login-ok", "login-page", "adv1", "adv45", "adv90", "newsess", "half-session", "half-session", "other-session"}
+
+func pidFieldOf(c c16Case) string {
+	if c.Cfg.Username {
+		return "username"
+	}
+	return "email"
+}
 
 func c16Prelude(w *harness.World, c c16Case, mk func(w *harness.World, route, pid, secret string) harness.Req) {
 	known := c.Cfg.Accounts[0]
@@ -68,6 +75,21 @@ func c16Prelude(w *harness.World, c c16Case, mk func(w *harness.World, route, pi
 			if c.Kind != "locked-pw" && c.Cfg.Has("auth") && c.KnownPW == "" {
 				w.Do(mk(w, "/login", known.PID, known.Password))
 				w.Jars[0].ClearSession()
+			}
+		case "half-session", "other-session":
+			// the observer is somebody with an ordinary account of their own: logged in as it, or
+			// (half-session) brought back by its remember cookie
+			if len(c.Cfg.Accounts) >= 2 && c.Cfg.Has("auth") {
+				own := c.Cfg.Accounts[1]
+				f := map[string]string{pidFieldOf(c): own.PID, "password": own.Password}
+				if k == "half-session" {
+					f["rm"] = "true"
+				}
+				w.Do(harness.Req{Method: "POST", Path: w.Path("/login"), Form: f})
+				if k == "half-session" && c.Cfg.Has("remember") && c.Cfg.Middleware == "remember" {
+					w.Jars[0].ClearSession()
+					w.Do(harness.Req{Method: "GET", Path: w.Path("/login")})
+				}
 			}
 		case "login-page":
 			if c.Cfg.Has("auth") {
@@ -112,7 +134,15 @@ func c16Transcript(r *harness.Resp) transcript {
 		hs = append(hs, k+": "+strings.Join(vs, "|"))
 	}
 	sort.Strings(hs)
-	return transcript{Status: r.Status, Headers: strings.Join(hs, "\n"), Body: string(r.Body), Session: mapStr(r.SessAfter), Cookies: mapStr(r.CookAfter)}
+	// wall-clock stamps differ between two runs a second apart: only their presence is compared
+	sess := map[string]string{}
+	for k, v := range r.SessAfter {
+		if k == "last_action" || k == "sms_last" {
+			v = "<time>"
+		}
+		sess[k] = v
+	}
+	return transcript{Status: r.Status, Headers: strings.Join(hs, "\n"), Body: string(r.Body), Session: mapStr(sess), Cookies: mapStr(r.CookAfter)}
 }
 
 func c16World(c c16Case) (*harness.World, error) {
